@@ -35,6 +35,8 @@ def snapshot(mdib):
         for iname, index in table._idx_defs.items():
             idx[iname] = {repr(k): sorted(id(o) for o in v) for k, v in index.items()}
         snap['idx_' + name] = idx
+        # version memory of removed objects (consulted when a handle is re-created): part of the MDIB state (C02/C03)
+        snap['memory_' + name] = dict(getattr(table, 'handle_version_lookup', {}))
     return snap
 
 
